@@ -76,20 +76,45 @@ def run(cmd, cwd=None, env=None, timeout=None, stdin=None):
 _built = {}
 
 
+def _harness_dir():
+    """The harness crate to build. Normally /verif/harness (path dependency on
+    /repo). With VERIF_REPO=<dir> (development aid: a scratch copy of the
+    repository carrying a mutant) a shadow crate under .work/ is used whose
+    manifest points at that directory; sources are shared by symlink."""
+    repo = os.environ.get("VERIF_REPO", "/repo").rstrip("/")
+    if repo == "/repo":
+        return HARNESS
+    import hashlib
+    tag = hashlib.sha1(repo.encode()).hexdigest()[:10]
+    d = os.path.join(WORK, "harness-" + tag)
+    os.makedirs(os.path.join(d, ".cargo"), exist_ok=True)
+    man = open(os.path.join(HARNESS, "Cargo.toml")).read().replace('path = "/repo"', 'path = "%s"' % repo)
+    mp = os.path.join(d, "Cargo.toml")
+    if not os.path.exists(mp) or open(mp).read() != man:
+        open(mp, "w").write(man)
+    shutil.copy(os.path.join(HARNESS, "Cargo.lock"), os.path.join(d, "Cargo.lock"))
+    shutil.copy(os.path.join(HARNESS, ".cargo", "config.toml"), os.path.join(d, ".cargo", "config.toml"))
+    link = os.path.join(d, "src")
+    if not os.path.islink(link):
+        os.symlink(os.path.join(HARNESS, "src"), link)
+    return d
+
+
 def build_harness(variant="std"):
     """cargo build of the harness against /repo's current working tree."""
     if variant in _built:
         return _built[variant]
+    hdir = _harness_dir()
     with Lock("cargo.lock"):
         t0 = time.time()
         if variant == "std":
             cmd = ["cargo", "build", "--release", "--offline"]
-            tdir = os.path.join(HARNESS, "target")
+            tdir = os.path.join(hdir, "target")
         else:
             cmd = ["cargo", "build", "--release", "--offline", "--no-default-features",
                    "--features", "serial", "--target-dir", "target-serial"]
-            tdir = os.path.join(HARNESS, "target-serial")
-        rc, out, err = run(cmd, cwd=HARNESS, timeout=1800,
+            tdir = os.path.join(hdir, "target-serial")
+        rc, out, err = run(cmd, cwd=hdir, timeout=1800,
                            env={"CARGO_NET_OFFLINE": "true"})
         if rc != 0:
             raise ToolError("harness build failed (%s):\n%s" % (variant, err[-4000:]))
